@@ -20,8 +20,79 @@ pub fn groups_of(prop: &str) -> (u32, bool) {
         "C13" => (grp::RECLAIM, true),
         "C14" => (grp::CLAIM | grp::CONTENT, false),
         "C18" => (grp::ALIGN | grp::CONTENT | grp::CONTAIN, false),
+        "C17" => (grp::CONTAIN, false),
         _ => (grp::ALL, false),
     }
+}
+
+// ---- C17: alternative entry points -------------------------------------------------------------------------
+
+fn map_id(o: &Op) -> Option<Op> {
+    Some(*o)
+}
+fn map_no_dealloc(o: &Op) -> Option<Op> {
+    if matches!(o, Op::Dealloc { .. }) { None } else { Some(*o) }
+}
+fn map_no_shrink(o: &Op) -> Option<Op> {
+    if matches!(o, Op::Shrink { .. } | Op::ShrinkSlice { .. }) { None } else { Some(*o) }
+}
+fn map_no_dealloc_no_shrink(o: &Op) -> Option<Op> {
+    if matches!(o, Op::Dealloc { .. } | Op::Shrink { .. } | Op::ShrinkSlice { .. }) { None } else { Some(*o) }
+}
+fn map_flip_try(o: &Op) -> Option<Op> {
+    Some(match *o {
+        Op::Typed { op, try_ } => Op::Typed { op, try_: !try_ },
+        Op::PrepSlice { elem, min_cap, commit, rev, try_ } => Op::PrepSlice { elem, min_cap, commit, rev, try_: !try_ },
+        Op::Reserve { n, try_ } => Op::Reserve { n, try_: !try_ },
+        Op::TryWith { mutable, ok, inner, try_ } => Op::TryWith { mutable, ok, inner, try_: !try_ },
+        o => o,
+    })
+}
+/// typed fast paths -> the generic layout path of the allocator interface
+fn map_generic(o: &Op) -> Option<Op> {
+    let a = |size: usize, align: usize| Op::Alloc { size: size as u32, align: align as u32, zeroed: false };
+    Some(match *o {
+        Op::Typed { op, try_ } => match op {
+            TypedOp::Layout(s, al_) => a(s, al_),
+            TypedOp::SizedU8 => a(1, 1),
+            TypedOp::SizedU64 => a(8, 8),
+            TypedOp::SizedArr3 => a(3, 1),
+            TypedOp::SizedA32 => a(32, 32),
+            TypedOp::SliceU8(n) => a(n, 1),
+            TypedOp::SliceU64(n) => a(8 * n, 8),
+            TypedOp::SliceArr3(n) => a(3 * n, 1),
+            TypedOp::SliceForU64(n) => a(8 * n, 8),
+            TypedOp::AllocU64 => Op::Typed { op: TypedOp::SizedU64, try_ },
+            TypedOp::AllocSliceCopyU8(n) => Op::Typed { op: TypedOp::SliceU8(n), try_ },
+            TypedOp::AllocUninitU64 => Op::Typed { op: TypedOp::SizedU64, try_ },
+            TypedOp::AllocUninitSliceU8(n) => Op::Typed { op: TypedOp::SliceU8(n), try_ },
+            TypedOp::SliceOverflow | TypedOp::AllocUnit => return None,
+        },
+        // shrink_slice on a block that is no longer typed is not expressible
+        Op::ShrinkSlice { .. } => return None,
+        o => o,
+    })
+}
+fn map_in_scope(o: &Op) -> Option<Op> {
+    if matches!(o, Op::Reset | Op::ResetToStart) { None } else { Some(*o) }
+}
+
+pub fn c17_variants() -> Vec<Variant> {
+    let v = |name: &'static str, h: Option<Handle>, map: fn(&Op) -> Option<Op>, wrap: bool| Variant { name, h, map, by_value_wrap: wrap };
+    vec![
+        v("ref", Some(Handle::Ref), map_id, false),
+        v("refref", Some(Handle::RefRef), map_id, false),
+        v("dyn", Some(Handle::Dyn), map_id, false),
+        v("dyncore", Some(Handle::DynCore), map_id, false),
+        v("without_dealloc", Some(Handle::WoDealloc), map_no_dealloc, false),
+        v("without_shrink", Some(Handle::WoShrink), map_no_shrink, false),
+        v("without_shrink(without_dealloc)", Some(Handle::WoShrinkWoDealloc), map_no_dealloc_no_shrink, false),
+        v("without_dealloc(without_shrink)", Some(Handle::WoDeallocWoShrink), map_no_dealloc_no_shrink, false),
+        v("try_twin", None, map_flip_try, false),
+        v("dyn+try_twin", Some(Handle::Dyn), map_flip_try, false),
+        v("generic_layout_path", None, map_generic, false),
+        v("bump_scope_by_value", None, map_in_scope, true),
+    ]
 }
 
 fn al(size: u32, align: u32) -> Op {
@@ -110,6 +181,7 @@ pub fn spaces<'a>(prop: &'a str, thorough: bool, deadline: Instant, threads: usi
     let og = SlabCfg { phase: 48, overgrant: 40, fail_mask: 0 };
     let og2 = SlabCfg { phase: 4080, overgrant: 100, fail_mask: 0 };
     let mk = |alphabet: Vec<Op>, depth: usize, params: Vec<RunParams>, fault: FaultMode, nontrivial: fn(&Cover, &[Op]) -> bool, rule: &'a str, floor: u64| Space {
+        variants: Vec::new(),
         prop,
         alphabet,
         depth,
@@ -216,6 +288,10 @@ pub fn spaces<'a>(prop: &'a str, thorough: bool, deadline: Instant, threads: usi
                 Op::Shrink { sel: Sel::Newest, to: ShrinkTo::Half, align: 0 },
                 Op::Shrink { sel: Sel::Second, to: ShrinkTo::Half, align: 0 },
                 Op::Shrink { sel: Sel::Newest, to: ShrinkTo::Zero, align: 0 },
+                // stricter alignment: the "unfit" path (may have to move the block)
+                Op::Shrink { sel: Sel::Newest, to: ShrinkTo::Half, align: 4 },
+                Op::Shrink { sel: Sel::Newest, to: ShrinkTo::MinusOne, align: 16 },
+                Op::Shrink { sel: Sel::Second, to: ShrinkTo::Half, align: 8 },
                 Op::ShrinkSlice { sel: Sel::Newest, to: ShrinkTo::Half },
                 Op::ShrinkSlice { sel: Sel::Second, to: ShrinkTo::MinusOne },
                 Op::Dealloc { sel: Sel::Newest },
@@ -437,6 +513,49 @@ pub fn spaces<'a>(prop: &'a str, thorough: bool, deadline: Instant, threads: usi
                 "every enabled history nesting aligned::<N> / scoped_aligned::<N> / scoped (N over all supported alignments, outer alignment = every configuration's MIN_ALIGN) with allocations of sizes that are not multiples of N, chunk switches, deallocation and exits by return/unwind; non-trivial = an alignment region containing an allocation",
                 500,
             )]
+        }
+        "C17" => {
+            let t = |op: TypedOp| Op::Typed { op, try_: true };
+            let a = vec![
+                al(3, 1),
+                al(8, 8),
+                al(40, 32),
+                t(TypedOp::SizedU64),
+                t(TypedOp::SizedArr3),
+                t(TypedOp::SizedA32),
+                t(TypedOp::SliceU8(5)),
+                t(TypedOp::SliceU64(3)),
+                t(TypedOp::SliceForU64(2)),
+                t(TypedOp::Layout(24, 8)),
+                t(TypedOp::AllocU64),
+                t(TypedOp::AllocSliceCopyU8(7)),
+                t(TypedOp::AllocUninitSliceU8(9)),
+                Op::AllocRem { extra: 1, align: 1 },
+                Op::Grow { sel: Sel::Newest, delta: 8, align: 0, zeroed: false },
+                Op::Shrink { sel: Sel::Newest, to: ShrinkTo::Half, align: 0 },
+                Op::ShrinkSlice { sel: Sel::Newest, to: ShrinkTo::Half },
+                Op::Dealloc { sel: Sel::Newest },
+                Op::Dealloc { sel: Sel::Second },
+                Op::Reserve { n: 64, try_: true },
+                Op::Prep { size: 8, align: 8, commit: Commit::Half, rev: false },
+                Op::PrepSlice { elem: 8, min_cap: 2, commit: Commit::Full, rev: false, try_: true },
+                Op::PrepSlice { elem: 3, min_cap: 3, commit: Commit::Half, rev: true, try_: true },
+                Op::TryWith { mutable: true, ok: false, inner: None, try_: true },
+                Op::Enter(Region::Scoped),
+                Op::Exit,
+                Op::ResetToStart,
+            ];
+            let mut sp = mk(
+                a,
+                d(4, 5),
+                params(&[Handle::Direct], &[Ctor::TryNew], &[z, og]),
+                FaultMode::None,
+                nontrivial_c01,
+                "every enabled history over the alphabet up to the depth bound is executed through the reference entry point (Bump / BumpScope inherent and static trait impls) and through 12 alternative entry points (&, &&, WithoutDealloc, WithoutShrink, both nestings, dyn BumpAllocatorCoreScope, dyn BumpAllocatorCore, panicking twin, dyn + panicking twin, generic layout path instead of typed fast paths, BumpScope by value instead of Bump); after every step the chunk index and offset of the returned block, its layout, allocated(), count() and remaining() must be equal; transitions counts reference + variant runs; non-trivial = the reference history performed a realloc, switched chunks or had >= 2 live blocks",
+                500,
+            );
+            sp.variants = c17_variants();
+            vec![sp]
         }
         _ => panic!("unknown property {prop}"),
     }
